@@ -13,6 +13,41 @@ CLAIMED = {
          'worker-limit independence bound. The retire-at-arrival race is hit by snapping deliveries onto the idle deadline.',
          'DESIGN.md section 5 / C01',
          'reference = events yielded by watching.infinite_watch (tap); FakeCluster semantics; sampled schedules'),
+ 'C02': ('exploration',
+         'Closed-loop exploration of multi-step handling cycles (all lifecycles, sub-handlers, storages) with foreign events, '
+         'kills/stops/lost responses/echo delays; view-based clauses under every fault, strict exactly-once and retry '
+         'numbering in the fault-free tier, close-not-early and parent-after-children clauses against the server state.',
+         'DESIGN.md section 5 / C02',
+         'handler ids unique per cause; no retries=/timeout= limits (C11); reference decoding of progress records for short ids'),
+ 'C03': ('exploration',
+         'Histories of changes, stops, kills (in-flight write applied or not), downtimes and delivery delays, then a fault-free '
+         'settle window; convergence oracle at quiescence (no progress records, last-handled == final essence, handlers of '
+         'the closing cycle saw the final essence, no operator writes, deletions complete).',
+         'DESIGN.md section 5 / C03',
+         'no API error responses are injected (C12); no name reuse (C08); independent essence reference'),
+ 'C05': ('exploration',
+         'Every processed event of closed-loop histories (deletions, forced finalizer removal, restarts) is classified by an '
+         'independent reference (documented precedence) from the server snapshot kopf was shown and compared with the cause '
+         'kopf detected; every change-handler call must be compatible with it.',
+         'DESIGN.md section 5 / C05',
+         'first-sight ("resume") is reconstructed from the trace; no field= handlers; null == absent in essence comparison'),
+ 'C07': ('exploration',
+         'Own-PATCH echoes delayed below/at/above the consistency timeout with foreign events queued in between; every '
+         'change-handler call is checked against every own acknowledged version (integer versions ordered by the oracle); '
+         'raw-event handlers must not be held back.',
+         'DESIGN.md section 5 / C07',
+         'no daemons/timers in this workload; versions of the fake API are integers'),
+ 'C09': ('exploration',
+         'Daemons of every reaction type and timers of every configuration under label toggles, graceful/early/forced '
+         'deletions, peering pauses and operator exits; one-instance, staged-stop, stop-requested, no-restart-after-own-exit, '
+         'running-at-quiescence, no-stall (CPU watchdog) and exit-completes oracles.',
+         'DESIGN.md section 5 / C09',
+         'cancel-only daemons always have a cancellation_timeout; async daemons only (no threads)'),
+ 'C10': ('exploration',
+         'Timer-only workloads over all interval/sharp/idle/initial_delay combinations, durations around the interval, error '
+         'scripts and object edits; strict lower bounds and slack-carrying upper bounds on the start/end stamps.',
+         'DESIGN.md section 5 / C10',
+         'upper bounds carry the result-patch latency as slack; idle lower bound only (kopf may reset idling more often)'),
 }
 
 NOT_YET = {}
